@@ -218,3 +218,49 @@ Theorem C09_source_receive_completes_or_rolls_back :
        (e = me /\ gm <> ZV.gen.Pure.Err_constants_ErrContractMethodNotFound /\ eAdd = Some amt) \/
        (me = 0 /\ gm <> ZV.gen.Pure.Err_constants_ErrContractMethodNotFound /\ eAdd = Some amt /\ In e (verdicts items))))))).
 Proof. exact gen_receive_completes_or_rolls_back. Qed.
+
+(* the hand model's generate_receive (the function the theorems over all queues above are about) IS the translated source:
+   with the inputs of the translation instantiated by what the model computes (lookup verdict, the method's error, its
+   descendants, and per descendant the verdict of apply_send on the state its predecessors left), the source commits
+   exactly where the model answers RApplied and enters rollbackEmbedded with the model's error where the model rolls back;
+   the model's remaining answers are the panics the translation does not express (nil method, panicking method) *)
+Theorem C09_generate_receive_is_the_source :
+  forall (cstate : Type) (dest_check : dsend -> option Z) (num : bytes -> Z) (rb1 rb2 : Z)
+         (lookup : send -> lres cstate) (a : cacct cstate) (s : send) gm f1 f2,
+  let a0 := pop_front cstate a in
+  let a1 := add_balance cstate a0 (s_zts s) (s_amount s) in
+  let enc := map (enc_d num) in
+  let NotFound := ZV.gen.Pure.Err_constants_ErrContractMethodNotFound in
+  let src := ZV.gen.PureVm.generateEmbeddedReceive in
+  match lookup s with
+  | LNotFound =>
+      generate_receive cstate dest_check lookup a s = rollback cstate dest_check (Some a0) s (E_method_not_found) /\
+      forall dsx me items,
+      src 0 NotFound rb1 rb2 (s_amount s) dsx me rb1 rb2 items f1 f2 =
+      (rb1, rb2, Some 1, Some 1, Some NotFound, None, None, None, None)
+  | LFound m =>
+      gm <> NotFound ->
+      match m a1 s with
+      | MErr c =>
+          generate_receive cstate dest_check lookup a s = rollback cstate dest_check (Some a0) s c /\
+          (c <> 0 -> forall dsx items,
+           src 0 gm rb1 rb2 (s_amount s) dsx c rb1 rb2 items f1 f2 =
+           (rb1, rb2, Some 1, Some 1, Some c, Some (s_amount s), None, None, None))
+      | MOk a2 ds =>
+          match apply_all cstate dest_check a2 ds with
+          | ASOk a3 =>
+              generate_receive cstate dest_check lookup a s = RApplied a3 ds /\
+              src 0 gm rb1 rb2 (s_amount s) (enc ds) 0 rb1 rb2 (verdict_items cstate dest_check rb1 rb2 a2 ds) f1 f2 =
+              (f1, f2, Some 1, Some 1, None, Some (s_amount s), Some 1, Some (enc ds), Some 0)
+          | ASErr c =>
+              generate_receive cstate dest_check lookup a s = rollback cstate dest_check (Some a0) s c /\
+              (c <> 0 ->
+               src 0 gm rb1 rb2 (s_amount s) (enc ds) 0 rb1 rb2 (verdict_items cstate dest_check rb1 rb2 a2 ds) f1 f2 =
+               (rb1, rb2, Some 1, Some 1, Some c, Some (s_amount s), None, None, None))
+          | ASPanic => generate_receive cstate dest_check lookup a s = RPanic
+          end
+      | MPanic => generate_receive cstate dest_check lookup a s = RPanic
+      end
+  | LOther => generate_receive cstate dest_check lookup a s = RPanic
+  end.
+Proof. exact generate_receive_is_source. Qed.
